@@ -136,9 +136,18 @@ def handle (toks : List String) : Option String :=
       | _ => some "stuck"
     | _, _ => some "bad-op"
   | "ctirproto.run" :: name :: args =>
+    let (tape, args) : List Val × List String :=
+      match args with
+      | a :: rest =>
+        if a.startsWith "tape=" then
+          (match parseArg (a.drop 5).toString with
+           | some (.arr l) => l
+           | _ => [], rest)
+        else ([], args)
+      | [] => ([], [])
     match (SMGo.Gen.CTIRProgProto.fnNames.zipIdx.find? (fun p => p.1 == name)).map (·.2), args.mapM parseArg with
     | some g, some vs =>
-      match run SMGo.Gen.CTIRProgProto.prog SMGo.Gen.CTIRProgProto.globals (SMGo.Model.CTIRProto.protoOracle (tapeOf [])) fuel g vs with
+      match run SMGo.Gen.CTIRProgProto.prog SMGo.Gen.CTIRProgProto.globals (SMGo.Model.CTIRProto.protoOracle (tapeOf tape)) fuel g vs with
       | some (.ret rs, _) => some ("ok" ++ String.join (rs.map (fun v => " " ++ showVal v)))
       | some (.panic, _) => some "panic"
       | _ => some "stuck"
